@@ -1,6 +1,6 @@
 #!/bin/bash
 # run every quick (or $1) check once; print one line per property
-cd /verif; tier=${1:-quick}
+cd "$(dirname "$0")/.."; tier=${1:-quick}
 for i in $(seq -w 1 20); do
   t0=$(date +%s); out=$(./check C$i --tier $tier 2>&1); rc=$?; t1=$(date +%s)
   echo "C$i rc=$rc $((t1-t0))s $(echo "$out" | grep -E '^(OK|VIOLATION|INCONCLUSIVE|KNOWN)' | head -2 | tr '\n' ' ' | cut -c1-200)"
